@@ -146,8 +146,20 @@ def impl(case):
                 pass
     hd = Hd(level=logging.DEBUG)
     old_level, old_disable, old_prop = lg.level, logging.root.manager.disable, lg.propagate
-    eg = ExponentiatedGradient(ExactLearner(), _moment(case), eps=case["eps"], max_iter=case["max_iter"],
-                               nu=case["nu"], eta0=case["eta0"], run_linprog_step=case["lp"])
+    import hashlib, json as _json
+    prehist = int(hashlib.sha1(_json.dumps({k_: v_ for k_, v_ in case.items() if not str(k_).startswith("_")},
+                                            sort_keys=True, default=str).encode()).hexdigest(), 16) % 3 == 0
+    if prehist:
+        # the SAME estimator object first configured differently and fitted, then re-configured through
+        # set_params and fitted on the case: everything certified below must describe the last fit only
+        eg = ExponentiatedGradient(ExactLearner(), _moment(case), eps=(0.5 if case["eps"] != 0.5 else 0.25),
+                                   max_iter=2, nu=0.5, eta0=1.0, run_linprog_step=not case["lp"])
+        eg.fit(X, 1 - y, sensitive_features=sf)
+        eg.set_params(eps=case["eps"], max_iter=case["max_iter"], nu=case["nu"], eta0=case["eta0"],
+                      run_linprog_step=case["lp"])
+    else:
+        eg = ExponentiatedGradient(ExactLearner(), _moment(case), eps=case["eps"], max_iter=case["max_iter"],
+                                   nu=case["nu"], eta0=case["eta0"], run_linprog_step=case["lp"])
     try:
         logging.disable(logging.NOTSET)
         lg.addHandler(hd); lg.setLevel(logging.DEBUG); lg.propagate = False
